@@ -18,7 +18,7 @@ history is `<wallNs>` or `<wallNs>/<monotonicNs>` when the `time.Time` carries a
   c08-ts-ok-u32 <current minute> <stamped>→ ok true|false     (as the unfixed code computed it)
   c08-ts-skew <trNs> <tsNs>               → ok true|false <minute tr> <minute ts>   stamped at ts, checked at tr
   c08-kc-new <cacheValidIntervalNs>       → ok <handle>       (one password: empty cache, decryptors holding nothing)
-  c08-kc-lookup <h> <now> <jitterMs>      → ok used=<e> cache=<e>                getCachedCiphers; e = <epoch>/<createNs> | none
+  c08-kc-lookup <h> <now> <jitterMs>      → ok used=<e> cache=<e>                getCachedCiphers; e = <epoch>/<createNs>[/<create monotonic ns>] | none
   c08-kc-try <h> <now> <jitterMs> <sender epoch> [<decryptor>]
                                           → ok key=<0|1|2|none> used=<e> cache=<e> held=<e>   tryDecryptAt (decryptor 0 if
                                             not given) of a segment sealed with the key of <sender epoch>; held = what THAT
@@ -31,7 +31,10 @@ history is `<wallNs>` or `<wallNs>/<monotonicNs>` when the `time.Time` carries a
 -/
 
 def showE : Option (Entry Int) → String
-  | some e => s!"{e.epoch}/{e.createTime.wall}"
+  | some e =>
+    match e.createTime.mono with
+    | some m => s!"{e.epoch}/{e.createTime.wall}/{m}"
+    | none => s!"{e.epoch}/{e.createTime.wall}"
   | none => "none"
 
 def ints (l : List String) : Option (List Int) := l.mapM (·.toInt?)
